@@ -33,8 +33,8 @@ def run(tier):
     src = source.load_all()
     reg = solver.Registry(solver.THOROUGH_TIMEOUT_MS if tier == "thorough" else 30000)
     R.add_registry(reg)
-    jobs = [dict(fn="props.events:job_no_miss", label="%s/handle_events-no-miss[n=%d]" % (PID, n), kwargs=dict(prop=PID, n=n)) for n in ((1, 2) if tier == "thorough" else (1,))]
-    jobs.append(dict(fn="props.events:job_handle_events", label="%s/handle_events[n=1]" % PID, kwargs=dict(prop=PID, n=1)))
+    jobs = [dict(fn="props.events:job_no_miss", label="%s/handle_events-no-miss[n=%d]" % (PID, n), kwargs=dict(prop=PID, n=n)) for n in (1, 2)]
+    jobs += [dict(fn="props.events:job_handle_events", label="%s/handle_events[n=%d]" % (PID, n), kwargs=dict(prop=PID, n=n)) for n in (1, 2)]
     for n, terms, d in EC.configs(tier, "nonterminal"):
         jobs.extend(IE.event_jobs(PID, n, terms, d))
     jobs.append(dict(fn="props.integrate_events:job_remove", label=PID + "/DenseOutput", kwargs=dict(prop=PID)))
